@@ -598,16 +598,16 @@ func pickCfg(r *rand.Rand, long bool, race bool) scanConfig {
 	cfg.Batch = batches[r.IntN(len(batches))]
 	switch {
 	case cfg.Batch == 1:
-		cfg.TreeSize = 50 + r.IntN(120)
+		cfg.TreeSize = 50 + r.IntN(51)
 	case cfg.Batch <= 7:
-		cfg.TreeSize = 50 + r.IntN(600)
-	case cfg.Batch <= 100:
-		cfg.TreeSize = 200 + r.IntN(2801)
+		cfg.TreeSize = 50 + r.IntN(251)
+	case cfg.Batch <= 250:
+		cfg.TreeSize = 200 + r.IntN(1801)
 	default:
 		cfg.TreeSize = 1000 + r.IntN(2001)
 	}
-	if race && cfg.TreeSize > 1500 {
-		cfg.TreeSize = 800 + cfg.TreeSize/4
+	if race && cfg.TreeSize > 1000 {
+		cfg.TreeSize = 750 + cfg.TreeSize/4
 	}
 	cfg.Fetchers = []int{1, 2, 8}[r.IntN(3)]
 	cfg.Workers = []int{1, 2, 8}[r.IntN(3)]
@@ -685,10 +685,10 @@ func runC17(c *core.Ctx) {
 	if !selfCheckTemplates(c) {
 		return
 	}
-	nShort := c.Pick(36, 900)
+	nShort := c.Pick(24, 900)
 	nLong := c.Pick(1, 8)
 	if race {
-		nShort = c.Pick(12, 320)
+		nShort = c.Pick(8, 320)
 		nLong = c.Pick(1, 6)
 	}
 	st := &c17stats{interleavings: map[uint64]bool{}, reqOrders: map[uint64]bool{}, deliveryOrder: map[uint64]bool{}}
@@ -750,6 +750,10 @@ func runC17(c *core.Ctx) {
 				c.Max("long_scan_ms", int(res.elapsed/time.Millisecond))
 			} else {
 				c.Max("short_scan_ms", int(res.elapsed/time.Millisecond))
+				if res.elapsed > 20*time.Second {
+					c.Count("short_scans_over_20s", 1)
+					c.Note("slow scan %s: %d ms, %d requests, %d events; %s", cid, res.elapsed.Milliseconds(), len(res.reqs), len(res.events), cfg.String())
+				}
 			}
 			if c.WantSample() && rep == 0 && len(res.events) > 0 {
 				c.Sample(map[string]any{"config": cfg, "returned": res.ret, "events": len(res.events), "goroutines": res.nGor,
